@@ -157,4 +157,54 @@ theorem hkLinksGo_pw (classic : Bool) (now : Nat) :
       rw [recomputeBatchRegime_dview, (updatePhase_dview _ _).1, ← e1, ← e2]
       split <;> rfl
 
+theorem Same.trans {a b c : FLink F} (h1 : Same a b) (h2 : Same b c) : Same a c := by
+  unfold Same at *; rw [h2, h1]
+
+theorem hk_links (s : Sys F) (now : Nat) :
+    (handleHousekeeping s now).1.failNext = s.failNext ∧ (handleHousekeeping s now).1.cfg = s.cfg ∧
+    (handleHousekeeping s now).1.lastSelected = s.lastSelected ∧
+    Pw (HkRel now) s.links (handleHousekeeping s now).1.links := by
+  refine ⟨rfl, rfl, rfl, ?_⟩
+  unfold handleHousekeeping
+  dsimp only
+  generalize hA : (if Reg.isProbing (Reg.clearPendingIfTimedOut s.reg now).fst = true then _ else _) = A
+  have hA2 : Pw Same s.links A.2 := by
+    rw [← hA]
+    split
+    · split
+      · split
+        · exact Pw.of_mapIdx (R := Same) _ (fun j l => by unfold Same; split <;> rfl) _
+        · exact Pw.refl (R := Same) (fun _ => rfl) _
+      · exact Pw.refl (R := Same) (fun _ => rfl) _
+    · exact Pw.refl (R := Same) (fun _ => rfl) _
+  clear hA
+  generalize hG : hkLinksGo s.cfg.classic now A.2 0 A.1 = G
+  have hG2 : Pw (HkRel now) A.2 G.1 := by rw [← hG]; exact hkLinksGo_pw _ _ _ _ _
+  clear hG
+  have h02 : Pw (HkRel now) s.links G.1 := hA2.comp hG2 (fun _ _ _ => HkRel.same_left)
+  generalize (Reg.regDriverPendingSends _ now).2 = sends
+  have fin : ∀ X, Pw Same G.1 X → Pw (HkRel now) s.links X :=
+    fun X h => h02.comp h (fun _ _ _ => HkRel.same_right)
+  split
+  · dsimp only
+    split
+    · split
+      · dsimp only
+        rename_i l hl
+        refine fin _ ?_
+        refine Pw.comp (R1 := Same) (R2 := Same) ?_ (Pw.of_map (R := Same) _ ?_ _) (fun _ _ _ => Same.trans)
+        · exact Pw.of_setAt (R := Same) (fun _ => rfl) _ _ l _ hl rfl
+        · intro l; rfl
+      · refine fin _ ?_
+        apply Pw.of_map (R := Same); intro l; rfl
+    · refine fin _ ?_
+      apply Pw.of_map (R := Same); intro l; rfl
+  · dsimp only
+    split
+    · split
+      · rename_i l hl
+        exact fin _ (Pw.of_setAt (R := Same) (fun _ => rfl) _ _ l _ hl rfl)
+      · exact fin _ (Pw.refl (R := Same) (fun _ => rfl) _)
+    · exact fin _ (Pw.refl (R := Same) (fun _ => rfl) _)
+
 end Srtla.Sys
